@@ -127,8 +127,10 @@ fn main() -> Result<(), anyhow::Error> {
 
             number_of_dimensions_in_input = number_of_dimensions_in_input.max(n);
 
-            // Convert the text representation to a Coor4D
-            args.extend(&(["0", "0", "0", "NaN", "0"][args.len()..]));
+            // Convert the text representation to a Coor4D: columns beyond
+            // the fourth are ignored, left-out ones get 0, 0, 0, NaN
+            args.truncate(4);
+            args.extend(&(["0", "0", "0", "NaN"][args.len()..]));
             let mut b: Vec<f64> = vec![];
             for e in args {
                 b.push(angular::parse_sexagesimal(e));
@@ -212,7 +214,9 @@ fn transform(
             ));
         }
 
-        for index in 0..n {
+        // Every tuple gets its difference: a tuple that failed is NaN (and stays NaN),
+        // and must not shift the tuples after it out of the subtraction
+        for index in 0..operands.len() {
             operands[index] = operands[index] - buffer[index];
         }
 
@@ -228,9 +232,12 @@ fn transform(
     // the first coordinate is larger than 1000, the output is most
     // probably not in degrees. Hence give 5 decimals for linear units,
     // 10 for angular
+    // (the formatting machinery panics for more than 65535 decimals; a f64 has
+    // at most 1074, so nothing but trailing zeros is lost by the limit)
     let decimals = options
         .decimals
-        .unwrap_or(if operands[0][0] > 1000. { 5 } else { 10 });
+        .unwrap_or(if operands[0][0] > 1000. { 5 } else { 10 })
+        .min(u16::MAX as usize);
 
     // Finally output the transformed coordinates
     for coord in operands {
